@@ -5,7 +5,9 @@ patch="$1"; shift
 cd /repo || exit 2
 if ! git diff --quiet; then echo "/repo has uncommitted changes"; exit 2; fi
 git apply "$patch" || { echo "patch does not apply"; exit 2; }
-trap 'git -C /repo checkout -- . ' EXIT
+# evidence written while a seeded change is applied must never be kept
+bak=$(mktemp -d); cp -r /verif/evidence "$bak/" 2>/dev/null
+trap 'git -C /repo checkout -- . ; rm -rf /verif/evidence; cp -r "$bak/evidence" /verif/evidence 2>/dev/null; rm -rf "$bak"' EXIT
 for p in "$@"; do
   echo "=== $p with $(basename $(dirname $patch))"
   (cd /verif && ./check "$p" quick | cut -c1-700; echo "exit=${PIPESTATUS[0]}")
